@@ -11,6 +11,7 @@ import (
 	"sort"
 	"strconv"
 	"strings"
+	"sync"
 	"time"
 
 	"vh/drv"
@@ -331,6 +332,9 @@ func RunShardFromEnv() (ok bool) {
 		return replayOne(p, c, rp)
 	}
 
+	if lim, ok := p.(interface{ HangLimit() time.Duration }); ok {
+		go watchdog(p.ID(), c, lim.HangLimit())
+	}
 	if lp, isLooper := p.(Looper); isLooper {
 		lp.Loop(c)
 	} else {
@@ -364,7 +368,9 @@ func driveProperty(p Property, c *Ctx) {
 		}()
 		drv.Check(tb, func(dt *drv.T) {
 			cs := p.Gen(dt, c)
+			watchSet(cs)
 			out := p.Run(c, cs)
+			watchSet(nil)
 			if out.Viol != nil {
 				if _, known := c.Known[out.Viol.Key]; known {
 					c.Stats.KnownHits[out.Viol.Key]++
@@ -429,4 +435,34 @@ func replayOne(p Property, c *Ctx, path string) bool {
 	jb, _ := json.Marshal(res)
 	_ = os.WriteFile(os.Getenv("VERIF_OUT"), jb, 0o664)
 	return true
+}
+
+// ---- hang watchdog -----------------------------------------------------------------------------------
+// The library calls nothing of ours while it spins, so "loops forever" can only be seen with a clock. The
+// limit is orders of magnitude above the normal duration of a case.
+
+var (
+	watchMu    sync.Mutex
+	watchCase  any
+	watchSince time.Time
+)
+
+func watchSet(cs any) {
+	watchMu.Lock()
+	watchCase, watchSince = cs, time.Now()
+	watchMu.Unlock()
+}
+
+func watchdog(id string, c *Ctx, limit time.Duration) {
+	for {
+		time.Sleep(time.Second)
+		watchMu.Lock()
+		cs, since := watchCase, watchSince
+		watchMu.Unlock()
+		if cs != nil && time.Since(since) > limit {
+			c.Stats.recordViolation(id, c.Shard, cs, violf(id+":hang", "one case did not finish within %v (typical: microseconds to milliseconds): the library loops", limit))
+			c.Stats.write(os.Getenv("VERIF_OUT"))
+			os.Exit(0)
+		}
+	}
 }
